@@ -155,12 +155,40 @@ class NameValuePairList(ParsableBase, Serializable):
             cls.get_separator(),
             item_class=NameValuePair,
             separator_spaces=' \t',
-            skip_empty=True
+            skip_empty=True,
+            quote_aware=True
         )
+
+        for component in parser['value']:
+            # a double quote is the delimiter of a quoted-string value and nothing else
+            if '"' in component.name or not cls._is_value_well_formed(component.value, component.quoted):
+                raise InvalidValue(six.ensure_text(bytes(parsable), 'ascii', 'replace'), cls, 'value')
 
         return cls(
             collections.OrderedDict([(component.name, component.value) for component in parser['value']])
         ), parser.parsed_length
+
+    @staticmethod
+    def _is_value_well_formed(value, quoted):
+        if value is None or not quoted:
+            return value is None or '"' not in value
+
+        # the content of a quoted-string: a double quote only as the second character of a quoted-pair
+        escaped = False
+        for char in value:
+            if escaped:
+                escaped = False
+            elif char == '\\':
+                escaped = True
+            elif char == '"':
+                return False
+
+        return not escaped
+
+    @classmethod
+    def _is_quoting_needed(cls, value):
+        # only a quoted-string can carry the list separator, a double quote or a blank at either end
+        return cls.get_separator() in value or '"' in value or value != value.strip(' \t')
 
     def compose(self):
         composer = ComposerText()
@@ -170,6 +198,8 @@ class NameValuePairList(ParsableBase, Serializable):
             composer.compose_string(name)
             if value is not None:
                 composer.compose_separator('=')
+                if self._is_quoting_needed(value):
+                    value = '"' + value + '"'
                 composer.compose_string(value)
 
             if item_number + 1 < len(self.value):
